@@ -272,7 +272,7 @@ Qed.
 Lemma stringify_faithful_ctx a rest :
   js_string_literal_parse (stringify_arg true a ++ rest) = Some (a, rest).
 Proof.
-  rewrite stringify_arg_spec. cbn [app js_string_literal_parse DQUOTE].
+  rewrite stringify_arg_spec. unfold DQUOTE. cbn [app js_string_literal_parse].
   change (34 =? 34) with true. cbn iota. rewrite <- app_assoc, js_body_enc_bytes.
   cbn [app js_body]. change (34 =? 34) with true. cbn iota. cbn [push]. rewrite app_nil_r. reflexivity.
 Qed.
@@ -286,21 +286,52 @@ Lemma stringify_unquoted_inside a rest :
   js_body (stringify_arg false a ++ rest) = push a (js_body rest).
 Proof. rewrite stringify_arg_spec. cbn [app]. rewrite app_nil_r. apply js_body_enc_bytes. Qed.
 
-Definition no_raw (c : N) : bool := negb (c =? 34) && negb (c <? 32).
+(* direct formulation: scanning left to right, a backslash always has a partner, and outside
+   such pairs there is no double quote and no control byte *)
+Definition plain (c : N) : bool := negb (c =? 92) && negb (c =? 34) && negb (c <? 32).
+Fixpoint no_unescaped (s : str) : bool :=
+  match s with
+  | [] => true
+  | c :: r => if c =? 92 then match r with [] => false | _ :: r' => no_unescaped r' end
+              else negb (c =? 34) && negb (c <? 32) && no_unescaped r
+  end.
 
-Lemma no_raw_table : forallb (fun c => forallb no_raw (enc_byte c)) range256 = true.
+Lemma no_unescaped_plain : forall p rest,
+  forallb plain p = true -> no_unescaped (p ++ rest) = no_unescaped rest.
+Proof.
+  induction p as [ | c p IH ]; intros rest H; [ reflexivity | ].
+  cbn [forallb] in H. apply andb_prop in H as [Hc Hp]. unfold plain in Hc.
+  apply andb_prop in Hc as [Hc H3]. apply andb_prop in Hc as [H1 H2].
+  apply Bool.negb_true_iff in H1. cbn [app no_unescaped]. rewrite H1, H2, H3, (IH rest Hp). reflexivity.
+Qed.
+
+Definition unesc_check (c : N) : bool :=
+  match enc_byte c with
+  | [x] => plain x
+  | b :: e :: tl => (b =? 92) && forallb plain tl
+  | [] => false
+  end.
+Lemma unesc_table : forallb unesc_check range256 = true.
 Proof. vm_compute. reflexivity. Qed.
 
-Lemma stringify_unquoted_no_raw a : forallb no_raw (stringify_arg false a) = true.
+Lemma no_unescaped_enc_byte c rest : no_unescaped (enc_byte c ++ rest) = no_unescaped rest.
+Proof.
+  destruct (N.lt_ge_cases c 256) as [Hlt | Hge].
+  - pose proof unesc_table as T. rewrite forallb_forall in T. specialize (T c (in_range256 c Hlt)).
+    unfold unesc_check in T. destruct (enc_byte c) as [ | x [ | e tl ] ]; [ discriminate T | | ].
+    + apply (no_unescaped_plain [x]). cbn [forallb]. rewrite T. reflexivity.
+    + apply andb_prop in T as [T1 T2]. cbn [app no_unescaped]. rewrite T1.
+      apply no_unescaped_plain. exact T2.
+  - assert (E0 : 0 <? esc_of c = false) by (rewrite (esc_of_high c Hge); reflexivity).
+    rewrite (enc_byte_zero c E0). apply (no_unescaped_plain [c]). cbn [forallb]. unfold plain.
+    rewrite Bool.andb_true_r. repeat (apply andb_true_intro; split); apply Bool.negb_true_iff; lia.
+Qed.
+
+Lemma stringify_unquoted_no_unescaped a : no_unescaped (stringify_arg false a) = true.
 Proof.
   rewrite stringify_arg_spec. cbn [app]. rewrite app_nil_r.
   induction a as [ | c a IH ]; [ reflexivity | ].
-  rewrite enc_bytes_cons, forallb_app, IH, Bool.andb_true_r.
-  destruct (N.lt_ge_cases c 256) as [Hlt | Hge].
-  - pose proof no_raw_table as T. rewrite forallb_forall in T. exact (T c (in_range256 c Hlt)).
-  - assert (E0 : 0 <? esc_of c = false) by (rewrite (esc_of_high c Hge); reflexivity).
-    rewrite (enc_byte_zero c E0). cbn [forallb]. unfold no_raw. rewrite Bool.andb_true_r.
-    apply andb_true_intro. split; apply Bool.negb_true_iff; lia.
+  rewrite enc_bytes_cons, no_unescaped_enc_byte. exact IH.
 Qed.
 
 (* every backslash of the unquoted form starts one of the escapes: no lone backslash can swallow
@@ -334,19 +365,31 @@ Fixpoint parse_lits (fuel : nat) (s : str) : option (list str) :=
       end
   end.
 
+Lemma parse_lits_last f a : parse_lits (S f) (stringify_arg true a ++ [RPAR]) = Some [a].
+Proof.
+  cbn [parse_lits]. rewrite stringify_faithful_ctx. unfold RPAR. change (41 =? 41) with true.
+  reflexivity.
+Qed.
+
+Lemma parse_lits_step f a tail :
+  parse_lits (S f) (stringify_arg true a ++ COMMA_SP ++ tail) =
+  match parse_lits f tail with Some l => Some (a :: l) | None => None end.
+Proof.
+  cbn [parse_lits]. rewrite stringify_faithful_ctx. unfold COMMA_SP. cbn [app].
+  change (44 =? 44) with true. change (32 =? 32) with true. reflexivity.
+Qed.
+
 Lemma invocation_args_faithful : forall args, args <> [] ->
   parse_lits (length args) (join_with COMMA_SP (map (stringify_arg true) args) ++ [RPAR]) = Some args.
 Proof.
   induction args as [ | a args IH ]; intros Hne; [ congruence | ].
   destruct args as [ | b args ].
-  - cbn [map join_with length parse_lits]. rewrite stringify_faithful_ctx.
-    unfold RPAR. change (41 =? 41) with true. reflexivity.
+  - cbn [map join_with length]. apply parse_lits_last.
   - specialize (IH ltac:(discriminate)).
     change (join_with COMMA_SP (map (stringify_arg true) (a :: b :: args)))
       with (stringify_arg true a ++ COMMA_SP ++ join_with COMMA_SP (map (stringify_arg true) (b :: args))).
-    cbn [length]. cbn [parse_lits]. rewrite <- !app_assoc, stringify_faithful_ctx.
-    unfold COMMA_SP at 1. cbn [app]. change (44 =? 44) with true. change (32 =? 32) with true.
-    cbn [andb]. cbn [length] in IH. rewrite IH. reflexivity.
+    change (length (a :: b :: args)) with (S (length (b :: args))).
+    rewrite <- !app_assoc, parse_lits_step, IH. reflexivity.
 Qed.
 
 Example stringify_ex :
